@@ -269,8 +269,13 @@ func TestVerifC03Principal(t *testing.T) {
 		if !r.Mine(i) || r.Expired() {
 			continue
 		}
+		if vsched.FreePass(r.Add, func() vsched.Scenario { return c03pBuild(t, r, sc) }) {
+			continue // race-detector pass: the same thread bodies, free-running, in a binary built with -race
+		}
 		vsched.Explore(r, mk(sc, bound))
 		r.Add("scenarios", 1)
 	}
-	r.Add("distinct_nontrivial", r.Get("schedules"))
+	if vsched.FreeRuns() == 0 {
+		r.Add("distinct_nontrivial", r.Get("schedules"))
+	}
 }
